@@ -97,7 +97,7 @@ func vC16ShowAllowed(a *AllowedIps) string {
 	}
 	var parts []string
 	for _, n := range a.allowed {
-		parts = append(parts, vC16NetTok(n.IP, n.Mask))
+		parts = append(parts, vC16CanonNet(n.IP, n.Mask))
 	}
 	return strings.Join(parts, ",")
 }
